@@ -27,6 +27,12 @@ def run(tier, corrupt=0):
     lines = dayeval_common.record(c, "corpus", "corpus", 0, days)
     ncorpus = len(lines)
     lines += dayeval_common.record(c, "random", "random", n, days, corrupt=corrupt)
+    # every selector kind and syntactic variant derived by TLC from Grammar.tla (incl. the boundary-date family)
+    cases = os.path.join(vlib.WORK, "c01_cases.ndjson")
+    vlib.tlc_ok("Gen_Grammar", env={"OUT": cases}, heap="8g")
+    ngen = len(lines)
+    lines += dayeval_common.record_cases(c, cases, 3 if tier == "quick" else 1, days)
+    c.setv("generated_sentences_evaluated", len(lines) - ngen)
     # ids must be unique across the two recordings
     fixed = []
     for i, l in enumerate(lines):
